@@ -3,6 +3,7 @@
 -/
 import RapidModel.Minimize
 import RapidProofs.MinimizeExact
+import RapidProofs.PassFix
 
 namespace Rapid.C12
 
@@ -41,5 +42,40 @@ theorem block_minimized_to_boundary (u θ : UInt64) (cond : UInt64 → Bool) (h 
   minimize_exact_on u θ cond h hc
 
 example : (37 : UInt64) ≤ 1000 := by decide
+
+
+/-! ### the shrinker as a whole: what holds when it stops by itself -/
+
+/-- when `minimizeBlocks` ends without an accepted candidate, no block can be lowered by one:
+    the test case with block `j` decremented does not reproduce the failure -/
+theorem no_block_can_be_lowered (p : Prog) (s s' : SS) (F : Nat) (hF : s.rc.data.length ≤ F) (hc : CacheOK p s)
+    (hrun : (minimizeBlocks F 0).run p s = .ok ((), s')) (hno : s'.shrinks = s.shrinks)
+    (j : Nat) (hj : j < s.rc.data.length) (hnz : s.rc.data[j] ≠ 0) :
+    ¬ Reproduces p s (s.rc.data.set j (s.rc.data[j] - 1)) :=
+  minimizeBlocks_fixpoint p s s' F hF hc hrun hno j hj hnz
+
+/-- …so a block on which the failure depends monotonically (a threshold on the drawn integer:
+    the value encodings are monotone in their blocks) is at the exact boundary -/
+theorem threshold_block_is_exact (p : Prog) (s s' : SS) (F : Nat) (hF : s.rc.data.length ≤ F) (hc : CacheOK p s)
+    (hrun : (minimizeBlocks F 0).run p s = .ok ((), s')) (hno : s'.shrinks = s.shrinks)
+    (j : Nat) (hj : j < s.rc.data.length) (hnz : s.rc.data[j] ≠ 0)
+    (hmono : ∀ x y : UInt64, x ≤ y → y < s.rc.data[j] → Reproduces p s (s.rc.data.set j x) → Reproduces p s (s.rc.data.set j y)) :
+    ∀ x, x < s.rc.data[j] → ¬ Reproduces p s (s.rc.data.set j x) :=
+  block_at_boundary p s j hj hnz hmono (minimizeBlocks_fixpoint p s s' F hF hc hrun hno j hj hnz)
+
+/-- when `removeGroups` ends without an accepted candidate, no finished standalone group — a
+    collection element together with its continue-coin — can be dropped: a collection that
+    must have at least `k` elements for the failure has exactly `k` -/
+theorem no_element_can_be_dropped (p : Prog) (s s' : SS) (F : Nat) (hF : s.rc.groups.length ≤ F) (hc : CacheOK p s)
+    (hrun : (removeGroups F 0).run p s = .ok ((), s')) (hno : s'.shrinks = s.shrinks)
+    (j : Nat) (hj : j < s.rc.groups.length) (hst : s.rc.groups[j].standalone = true) (hfin : 0 ≤ s.rc.groups[j].end_)
+    (hne : (s.rc.groups[j].begin : Int) ≠ s.rc.groups[j].end_) :
+    ∃ buf, without? s.rc.data [s.rc.groups[j]] = some buf ∧ ¬ Reproduces p s buf :=
+  removeGroups_fixpoint p s s' F hF hc hrun hno j hj hst hfin hne
+
+/-- the cache invariant the two statements assume holds in every state the shrinker reaches -/
+theorem cache_invariant (p : Prog) {α : Type} (sc : Script α) (rc : Rec) (err : Option Err) (s' : SS) (a : α)
+    (h : sc.run p { rc := rc, err := err } = .ok (a, s')) : CacheOK p s' :=
+  run_cacheOK p sc _ s' a (cacheOK_init p rc err) h
 
 end Rapid.C12
